@@ -60,6 +60,15 @@ def norm_aff(a):
     return a
 
 
+def nz(x):
+    """simplify a z3 term; return a Python int when it is a constant (keeps concrete control concrete when a
+    word mixes symbolic and concrete bytes, e.g. `shr reg, 24` on a table entry whose length byte is concrete)"""
+    x = z3.simplify(x)
+    if z3.is_bv_value(x):
+        return x.as_long()
+    return x
+
+
 def z(w, x):
     if isinstance(x, int):
         return z3.BitVecVal(x & mask(w), w)
@@ -133,6 +142,7 @@ def and_(w, a, b):
             return 0
         if b == mask(w):
             return a
+        return nz(a & z(w, b))
     return a & z(w, b)
 
 
@@ -260,7 +270,7 @@ def lshr(w, a, n):
         return a >> n
     if is_aff(a):
         return norm_aff(Aff(a.bits[n:] + [0] * n))
-    return z3.LShR(a, n)
+    return nz(z3.LShR(a, n))
 
 
 def ashr(w, a, n):
@@ -316,7 +326,7 @@ def extract(x, hi, lo, w=None):
         return norm_aff(Aff(x.bits[lo:hi + 1]))
     if lo == 0 and hi == x.size() - 1:
         return x
-    return z3.Extract(hi, lo, x)
+    return nz(z3.Extract(hi, lo, x))
 
 
 def concat(parts):
